@@ -35,6 +35,9 @@ func init() {
 }
 
 func runC08(c *an.Ctx) {
+	// ---- R9: per-client EDNS adjustments never land in a cached message
+	c.Floor("C08-R9", 3)
+	c07Caches(c, "C08-R9")
 	c.Floor("C08-R8", 3)
 	ecsHopToHop(c, "C08-R8")
 	c.Floor("C08-R1", 5)
